@@ -72,6 +72,10 @@ def strategy_(draw, shard):
         case["delta"] = float(f"{case['b'] * 0.25:.6g}") if draw(st.booleans()) else float(f"{case['b'] * 0.35:.6g}")
         tau = (case["b"] / case["delta"]) ** 2
         case["data"] = [float(round(min(case["data"][0], 90))), float(round(tau + draw(st.integers(-3, 3))))]
+        # sometimes the caller holds the nuisance parameter fixed (through fixed_params): the toys of both
+        # hypotheses must then be thrown at that value
+        if draw(st.integers(0, 2)) == 0:
+            case["fix_gamma"] = draw(st.sampled_from([0.85, 1.0, 1.15]))
     case.update(kind="toys", ntoys=shard["ntoys"], seed=draw(st.integers(0, 2**31 - 1)), backend="numpy")
     return case
 
@@ -281,8 +285,17 @@ def run_toys(case, ctx):
         data = list(case["data"])
         seed_all(case["seed"], "numpy")
         N = case["ntoys"]
+        fixg = case.get("fix_gamma")
+        extra = {}
+        if fixg is not None:
+            cfg = model.config
+            init = cfg.suggested_init()
+            init[cfg.par_slice("uncorr_bkguncrt").start] = fixg
+            fixed = cfg.suggested_fixed()
+            fixed[cfg.par_slice("uncorr_bkguncrt").start] = True
+            extra = {"init_pars": init, "par_bounds": cfg.suggested_bounds(), "fixed_params": fixed}
         try:
-            calc = ToyCalculator(data, model, ntoys=N, track_progress=False)
+            calc = ToyCalculator(data, model, ntoys=N, track_progress=False, **extra)
             ts = calc.teststatistic(mu)
             sb, b = calc.distributions(mu)
             clsb, clb = float(backends.tonp(sb.pvalue(ts))), float(backends.tonp(b.pvalue(ts)))
@@ -299,23 +312,32 @@ def run_toys(case, ctx):
             ctx.fail(f"C14/toys/raises/{type(exc).__name__}@{w[0]}:{w[1]}", message=str(exc)[:200])
             return
         q_obs = float(backends.tonp(ts))
-        q_ref, pc, _, _ = refstats.qmu_like(fam, mu, data)
+        family = case["family"]
+        if fixg is not None:
+            # gamma held fixed: the statistic depends on n only, as for a nuisance-free model with b' = gamma*b
+            fam = refstats.FamilyA([case["s"]], [fixg * case["b"]], tuple(case["bounds"]))
+            family, data_q = "A", [data[0]]
+        else:
+            data_q = data
+        q_ref, pc, _, _ = refstats.qmu_like(fam, mu, data_q)
         ctx.close("q_obs", q_obs, q_ref, 2e-3 + 1e-5 * q_ref, "C14/toys/observed_statistic_ne_closed_form")
-        if case["family"] == "A":
+        if family == "A":
             nuis_sb = nuis_b = None
         else:
             nuis_sb = fam.conditional(mu, data)[0][1]
             nuis_b = fam.conditional(0.0, data)[0][1]
         for name, got, mu_h, nuis in (("CLsb", clsb, mu, nuis_sb), ("CLb", clb, 0.0, nuis_b)):
-            plo, phi = exact_tail(fam, case["family"], mu_h, nuis, mu, q_ref, data)
+            plo, phi = exact_tail(fam, family, mu_h, nuis, mu, q_ref, data_q)
             se = math.sqrt(max(phi * (1 - plo), 1e-12) / N)
             lo, hi = plo - 6 * se - 1.0 / N, phi + 6 * se + 1.0 / N
             ok = lo <= got <= hi
             ctx.err(name, 0.0 if ok else float("inf"))
             if not ok:
-                ctx.fail(f"C14/toys/{name}_outside_exact_tail_probability/{case['family']}", got=got, exact=[plo, phi],
+                ctx.fail(f"C14/toys/{name}_outside_exact_tail_probability/{case['family']}{'_fixed_nuisance' if fixg is not None else ''}", got=got, exact=[plo, phi],
                          se=se, ntoys=N, q_obs=q_ref, mu=mu)
         ctx.label("kind=toys", f"family={case['family']}")
+        if fixg is not None:
+            ctx.label("nuisance_fixed_by_caller")
         ctx.nontrivial(["toys", case["family"], data, mu, case["seed"]])
     finally:
         backends.reset()
